@@ -16,8 +16,12 @@ def unparse(node):
 
 
 def norm(node):
-    """Normalised text of a node (formatting/comment independent)."""
-    return ' '.join(unparse(node).split())
+    """Normalised text of a node (formatting/comment independent).  String
+    literals keep their inner whitespace; multi-line statements are joined."""
+    text = unparse(node)
+    if '\n' not in text:
+        return text
+    return ' '.join(line.strip() for line in text.splitlines())
 
 
 def short(node, limit=140):
